@@ -227,6 +227,8 @@ def install(w):
     def type_attr(it, v, attr, node):
         if attr == "coerce_input_value":
             return VFunc(None, recv=v, builtin="leaf.coerce_input_value", name=attr)
+        if attr == "coerce_output_value":
+            return VFunc(None, recv=v, builtin="leaf.coerce_output_value", name=attr)
         return prev_type_attr(it, v, attr, node)
     w.type_attr = type_attr
 
@@ -257,3 +259,15 @@ def install(w):
         raise _Raise(VExc(cls, origin="leaf coercer", okind="RAISES", exact=True,
                           lineno=getattr(node, "lineno", 0)))
     w.builtins["leaf.coerce_input_value"] = leaf_coerce
+
+    LEAF_OUT = z3.Function("leaf_out", TyS, ValS, ValS)
+
+    def leaf_coerce_output(it, f, args, kw, node):
+        """A leaf type's output coercer: any value or any Exception (also user supplied ones)."""
+        w.trusted_used.add("leaf_type.coerce_output_value(v): returns some value or raises some "
+                           "Exception (A5); built-in scalars are verified separately (C16)")
+        d = dyn_t(it, args[0])
+        if it.choose(2, "leaf output coercer outcome") == 1:
+            w.raise_any(it, node)
+        return VDyn(LEAF_OUT(f.recv.t, d))
+    w.builtins["leaf.coerce_output_value"] = leaf_coerce_output
